@@ -2276,6 +2276,11 @@ class Task:
                 res.append((rs, None, exn if isinstance(exn, str) else "UserBaseException"))
         ns = st.fork() if c.raises else st
         r = post(ns, False)
+        if self.opts.get("reach_probe") and c.kind == "external" and isinstance(r, V) and isinstance(r.sort, (SeqSort, MapSort)):
+            # vacuity guard for assumed contracts: a non-empty result must be consistent with what the contract promises
+            nonempty = (r.comps[0] >= 1) if isinstance(r.sort, SeqSort) else (map_parts(r)[2].comps[0] >= 1)
+            self.obligations.append(Obligation(f"{self.label}: assumed contract {c.name} admits a non-empty result (line +{getattr(node, 'lineno', self.fn.lineno) - self.fn.lineno})",
+                                               list(ns.pc) + list(ns.guards) + [nonempty], z3.BoolVal(False), self.label, list(ns.trace) + [(getattr(node, "lineno", 0), f"nonempty {c.name}")], "reach", None))
         if not c.raises or self.feasible(ns):
             res.append((ns, r, None))
         return res
